@@ -1,6 +1,7 @@
 import Mrpro.Lemmas.SrcL
 import Mrpro.Model.Resample
 import Mrpro.Lemmas.ResampleL
+import Mrpro.Lemmas.PadCoordL
 /-! # C20 — resampling operators interpolate and integrate as specified -/
 namespace C20
 open M
@@ -67,5 +68,26 @@ theorem lerpAt_linear (n : Nat) (α β c : Rat) (h0 : 0 ≤ c) (h1 : c ≤ (n : 
 theorem src_sliceproj_start (nx ox ny oy : Nat) (hx : ox ≤ nx) (hy : oy ≤ ny) :
     M.Src.sliceproj_start nx ox ny oy = ((((nx - ox) / 2 : Nat) : Int), (((ny - oy) / 2 : Nat) : Int)) :=
   M.SrcL.sliceproj_start_eq nx ox ny oy hx hy
+
+/-! ### padding modes of the grid sampler (coordinate maps applied after un-normalisation) -/
+
+/-- `border` and `reflection` always sample inside the image … -/
+theorem padCoord_range {mode : ℕ} (alignCorners : Bool) {n : ℕ} (hn : 0 < n) (c : ℚ) (hm : mode = 1 ∨ mode = 2) :
+    0 ≤ M.padCoord mode alignCorners n c ∧ M.padCoord mode alignCorners n c ≤ (n : ℚ) - 1 :=
+  M.padCoord_range alignCorners hn c hm
+
+/-- … and no padding mode changes a location that is inside the image (both `align_corners` conventions, incl. `n = 1`
+and the last pixel centre) -/
+theorem padCoord_inside (mode : ℕ) (alignCorners : Bool) {n : ℕ} (hn : 0 < n) {c : ℚ} (h0 : 0 ≤ c) (h1 : c ≤ (n : ℚ) - 1) :
+    M.padCoord mode alignCorners n c = c :=
+  M.padCoord_inside mode alignCorners hn h0 h1
+
+/-- `reflection` really reflects: symmetric about both edges of the reflection interval and periodic with twice its length -/
+theorem reflectCoord_laws {tl th : ℤ} (h : tl < th) (c : ℚ) :
+    M.reflectCoord tl th ((tl : ℚ) - c) = M.reflectCoord tl th c
+    ∧ M.reflectCoord tl th ((th : ℚ) - c) = M.reflectCoord tl th c
+    ∧ M.reflectCoord tl th (c + ((th : ℚ) - (tl : ℚ))) = M.reflectCoord tl th c
+    ∧ ((tl : ℚ) / 2 ≤ M.reflectCoord tl th c ∧ M.reflectCoord tl th c ≤ (th : ℚ) / 2) :=
+  ⟨M.reflectCoord_mirror tl th c, M.reflectCoord_mirror_high h c, M.reflectCoord_periodic h c, M.reflectCoord_range h c⟩
 
 end C20
